@@ -544,8 +544,8 @@ func setGenExpr(t *schema.Table, c *schema.Column, f int64) error {
 // The following regexes extract named FKs and CHECK constraints defined in table-constraints or inlined
 // as column-constraints. Note, we assume the SQL statements are valid as they are returned by SQLite.
 var (
-	reFKC   = regexp.MustCompile("(?i)(?:[(,]\\s*)[\"`]*(\\w+)[\"`]*[^,]*\\s+CONSTRAINT\\s+[\"`]*(\\w+)[\"`]*\\s+REFERENCES\\s+[\"`]*(\\w+)[\"`]*\\s*\\(([,\"` \\w]+)\\)")
-	reFKT   = regexp.MustCompile("(?i)CONSTRAINT\\s+[\"`]*(\\w+)[\"`]*\\s+FOREIGN\\s+KEY\\s*\\(([,\"` \\w]+)\\)\\s+REFERENCES\\s+[\"`]*(\\w+)[\"`]*\\s*\\(([,\"` \\w]+)\\)")
+	reFKC   = regexp.MustCompile("(?i)(?:[(,]\\s*)[\"`]*(\\w+)[\"`]*[^,]*\\s+CONSTRAINT\\s+[\"`]*(\\w+)[\"`]*\\s+REFERENCES\\s+[\"`]*(\\w+)[\"`]*\\s*(?:\\(([,\"` \\w]+)\\))?")
+	reFKT   = regexp.MustCompile("(?i)CONSTRAINT\\s+[\"`]*(\\w+)[\"`]*\\s+FOREIGN\\s+KEY\\s*\\(([,\"` \\w]+)\\)\\s+REFERENCES\\s+[\"`]*(\\w+)[\"`]*\\s*(?:\\(([,\"` \\w]+)\\))?")
 	reCheck = regexp.MustCompile("(?i)(?:CONSTRAINT\\s+[\"`]?(\\w+)[\"`]?\\s+)?CHECK\\s*\\(")
 )
 
@@ -586,8 +586,12 @@ func fillConstName(t *schema.Table) error {
 	return nil
 }
 
-// columns from the matched regex above.
+// columns from the matched regex above. A reference without
+// a column list (REFERENCES parent) yields no columns.
 func columns(s string) []string {
+	if s == "" {
+		return nil
+	}
 	names := strings.Split(s, ",")
 	for i := range names {
 		names[i] = strings.Trim(strings.TrimSpace(names[i]), "`\"")
@@ -597,7 +601,7 @@ func columns(s string) []string {
 
 // matchFK reports if the foreign-key matches the given attributes.
 func matchFK(fk *schema.ForeignKey, columns []string, refTable string, refColumns []string) bool {
-	if len(fk.Columns) != len(columns) || fk.RefTable.Name != refTable || len(fk.RefColumns) != len(refColumns) {
+	if len(fk.Columns) != len(columns) || fk.RefTable.Name != refTable || refColumns != nil && len(fk.RefColumns) != len(refColumns) {
 		return false
 	}
 	for i := range columns {
@@ -685,6 +689,7 @@ WHERE
 	indexesQuery = "SELECT `il`.`name`, `il`.`unique`, `il`.`origin`, `il`.`partial`, `m`.`sql` FROM pragma_index_list('%s') AS il JOIN sqlite_master AS m ON il.name = m.name"
 	// Query to list index columns.
 	indexColumnsQuery = "SELECT name, desc FROM pragma_index_xinfo('%s') WHERE key = 1 ORDER BY seqno"
-	// Query to list table foreign-keys.
-	fksQuery = "SELECT `id`, `from`, `to`, `table`, `on_update`, `on_delete` FROM pragma_foreign_key_list('%s') ORDER BY id, seq"
+	// Query to list table foreign-keys. A reference that does not list the parent columns
+	// (REFERENCES parent) has no "to" columns: these are the primary-key columns of the parent.
+	fksQuery = "SELECT `id`, `from`, COALESCE(`to`, (SELECT `name` FROM pragma_table_info(`fk`.`table`) WHERE `pk` = `fk`.`seq` + 1)) AS `to`, `table`, `on_update`, `on_delete` FROM pragma_foreign_key_list('%s') AS `fk` ORDER BY id, seq"
 )
